@@ -193,6 +193,16 @@ class OptRun:
         self.hp = {k: hp_value(self.tag + k, cfg) for k in HP}
         assume_domain(self.hp)
         hp = self.hp
+        if cfg.get("assume_generic") and IS_SYM:
+            # only the generic equality regime: no hyperparameter sits at one of the special values the code tests for
+            for name, specials in (("b1", [0]), ("b2", [1]), ("b3", [-1, "b1"]), ("wd", [0]), ("mom", [0]), ("gb2", [1])):
+                v = hp[name]
+                if v.c is not None:
+                    continue
+                for sp in specials:
+                    o = hp[sp] if isinstance(sp, str) else SymReal.const(sp)
+                    if o.c is None or True:
+                        CTX.assume(v.n != o.n)
         self.delta = calibrated_delta()
         pdt = dtype_of(cfg.get("pdtype", "float32"))
         fdt = dtype_of(cfg.get("fdtype", "float32"))
@@ -437,6 +447,63 @@ class OptRun:
             if IS_SYM and isinstance(v, SymReal):
                 v = v.c
             symx.prove(f"group {gi} step counter", _as_int(v) == self.k[gi], self._sig("step-counter"))
+
+    # -- frame conditions (C04): everything that belongs to a parameter, read through optimizer.state
+    def snapshot_param(self, pi):
+        p = self.params[pi]
+        out = [("param", p, id(p), read(p))]
+
+        def walk(prefix, x):
+            if isinstance(x, torch.Tensor):
+                out.append((prefix, x, id(x), read(x)))
+            elif isinstance(x, dict):
+                for k, v in x.items():
+                    walk(f"{prefix}/{k}", v)
+            elif isinstance(x, (list, tuple)):
+                for i, v in enumerate(x):
+                    walk(f"{prefix}/{i}", v)
+            elif hasattr(x, "__dict__") and type(x).__module__.startswith(("distributed_shampoo", "optimizer_modules")):
+                for k, v in vars(x).items():
+                    walk(f"{prefix}.{k}", v)
+
+        walk("state", self.opt.state[p] if p in self.opt.state else {})
+        return out
+
+    def prove_unchanged(self, pi, snap):
+        info = self._sig("absent-parameter-changed")
+        now = self.snapshot_param(pi)
+        symx.prove(f"param {pi}: same set of state tensors", [n for n, *_ in now] == [n for n, *_ in snap], info)
+        for (name, t0, id0, a0), (_, t1, id1, a1) in zip(snap, now):
+            if name.endswith("step") or name == "state/step":
+                continue  # the group's step counter lives under the first parameter of the group; checked separately
+            symx.prove(f"param {pi}: state tensor object {name} is not replaced", id0 == id1, info)
+            for idx in (np.ndindex(*a0.shape) if a0.ndim else [()]):
+                symx.prove_equal(f"parameter without gradient is untouched: param {pi} {name}{list(idx)}", a1[idx], a0[idx], info)
+
+    def masked_lists_aligned(self):
+        """After a step every masked list is compress(local list, current selector) (alignment of per-block buffers)."""
+        info = self._sig("masked-list-misaligned")
+        from itertools import compress
+        from distributed_shampoo import shampoo_types as ST
+
+        for gi, sl in enumerate(self.opt._per_group_state_lists):
+            sel = sl[ST.DISTRIBUTOR].local_grad_selector
+            pairs = []
+            if ST.FILTERED_GRAD_LIST in sl:
+                pairs.append(("filtered_grad", sl[ST.MASKED_FILTERED_GRAD_LIST], sl[ST.FILTERED_GRAD_LIST]))
+            if ST.MOMENTUM_LIST in sl:
+                pairs.append(("momentum", sl[ST.MASKED_MOMENTUM_LIST], sl[ST.MOMENTUM_LIST]))
+            pairs.append(("blocked_params", sl[ST.MASKED_BLOCKED_PARAMS], sl[ST.DISTRIBUTOR].local_blocked_params))
+            shp = sl[ST.SHAMPOO_PRECONDITIONER_LIST]
+            pairs.append(("kronecker_factors", shp._masked_kronecker_factors_list, shp._local_kronecker_factors_list))
+            pairs.append(("roots", shp._masked_root_list, shp._local_root_list))
+            gr = sl.get(ST.GRAFTING_PRECONDITIONER_LIST)
+            if gr is not None and hasattr(gr, "_masked_preconditioner_list"):
+                pairs.append(("grafting", gr._masked_preconditioner_list, gr._local_preconditioner_list))
+            for name, masked, local in pairs:
+                exp = list(compress(local, sel))
+                ok = len(masked) == len(exp) and all((a is b) or (not isinstance(a, torch.Tensor) and a == b) for a, b in zip(masked, exp))
+                symx.prove(f"group {gi}: masked {name} list is the local list compressed by the current gradient selector", ok, info)
 
     # -- re-basing (DESIGN 1.4 / 1b): rename what was just proved equal to fresh variables
     def rebase(self):
